@@ -60,6 +60,62 @@ def compare(ctx, ref_path, omp_path, nthreads):
     return n
 
 
+def stress_history(rnd, label):
+    """large local polynomial / wavelet grids and direction-selective refinement at mid-range tolerances: the parallel regions
+    (buildUpdateMap, surplus update by levels, candidate collection) run long enough for threads to overlap"""
+    fam = rnd.choice(["localp", "localp", "localp", "wavelet", "sequence", "global"])
+    d = rnd.choice([2, 2, 3])
+    L = ["SCEN " + label]
+    if fam == "localp":
+        depth = {2: rnd.randint(6, 9), 3: rnd.randint(5, 6)}[d]
+        L.append("make localp %d %d %d %d %s 0" % (d, rnd.choice([1, 2]), depth, rnd.choice([1, 2, 3]), rnd.choice(["localp", "semi-localp", "localp-zero"])))
+        L.append("load 1")
+        for k in range(2):
+            L.append("surpl %d %d %s 0 0" % (rnd.randint(20, 600), -1, rnd.choice(["fds", "direction", "stable", "fds", "classic", "parents"])))
+            L.append("load %d" % (k + 2))
+    elif fam == "wavelet":
+        L.append("make wavelet %d 1 %d %d 0" % (d, {2: 5, 3: 3}[d], rnd.choice([1, 3])))
+        L.append("load 1")
+        L.append("surpl %d -1 %s 0 0" % (rnd.randint(10, 100), rnd.choice(["fds", "direction", "classic"])))
+        L.append("load 2")
+    elif fam == "sequence":
+        L.append("make sequence %d 2 %d level %s 0 0" % (d, {2: 24, 3: 10}[d], rnd.choice(["leja", "rleja", "min-lebesgue"])))
+        L.append("load 1")
+        L.append("surp %d -1 0" % rnd.randint(5, 60))
+        L.append("load 2")
+        L.append("aniso iptotal 10 0 0")
+        L.append("load 3")
+    else:
+        L.append("make global %d 2 %d level %s 0 0 0 0" % (d, {2: 8, 3: 6}[d], rnd.choice(["clenshaw-curtis", "fejer2", "leja"])))
+        L.append("load 1")
+        L.append("aniso iptotal 20 0 0")
+        L.append("load 2")
+    return "\n".join(L) + "\n"
+
+
+def stress(ctx, rnd):
+    """compare-only: recorded executions of the serial build against repeated runs of the OpenMP build"""
+    n = 32 if ctx.quick else 200
+    reps = 3 if ctx.quick else 6
+    scens = [stress_history(rnd, "s%d" % i) for i in range(n)]
+    env0 = {"VERIF_MAX_POINTS": "20000", "VERIF_NO_FORK": "1"}
+    ref = {}
+    gl.run_grid(ctx, [("stress", scens)], OBS_NUM, "C13", variant="hooks", tag="-stress-serial", keep_traces=ref, validate=False, chunk=4, env=env0, timeout=900)
+    compared = 0
+    for t in ([2, 8, 16] if ctx.quick else [2, 3, 8, 16]):
+        for rep in range(reps):
+            traces = {}
+            env = dict(env0)
+            env.update({"OMP_NUM_THREADS": str(t), "OMP_DYNAMIC": "false", "OMP_WAIT_POLICY": "ACTIVE"})
+            gl.run_grid(ctx, [("stress", scens)], OBS_NUM, "C13", variant="omphooks", env=env, exec_nproc=max(1, 16 // t), tag="-stress-omp%d" % t, keep_traces=traces,
+                        validate=False, chunk=4, timeout=900)
+            for k in ref:
+                if k in traces:
+                    compared += compare(ctx, ref[k], traces[k], t)
+    ctx.extra["stress_events_compared"] = compared
+    ctx.sample({"kind": "stress scenario (compare only)", "text": scens[0]})
+
+
 def run(ctx):
     rnd = random.Random(ctx.seed + 1313)
     omp_region_mc(ctx)
@@ -72,12 +128,13 @@ def run(ctx):
     compared = 0
     for t in threads:
         traces = {}
-        gl.run_grid(ctx, [("omp", scens)], mask, "C13", variant="omphooks", env={"OMP_NUM_THREADS": str(t), "OMP_DYNAMIC": "false", "OMP_WAIT_POLICY": "PASSIVE", "VERIF_NO_FORK": "1"}, exec_nproc=max(1, 16 // t),
-                    tag="-omp%d" % t, keep_traces=traces)
+        gl.run_grid(ctx, [("omp", scens)], mask, "C13", variant="omphooks", env={"OMP_NUM_THREADS": str(t), "OMP_DYNAMIC": "false", "OMP_WAIT_POLICY": "ACTIVE", "VERIF_NO_FORK": "1"}, exec_nproc=max(1, 16 // t),
+                    tag="-omp%d" % t, keep_traces=traces, identical_to=ref)
         for k in ref:
             if k in traces:
-                compared += compare(ctx, ref[k], traces[k], t)
+                compared += compare(ctx, ref[k], traces[k] + ".full" if os.path.exists(traces[k] + ".full") else traces[k], t)
     ctx.extra["events_compared_between_builds"] = compared
+    stress(ctx, rnd)
     ctx.extra["thread_counts"] = threads
     ctx.assume("the OpenMP runtime's schedules are not enumerated: the same histories are run in the serial build and in an -fopenmp build at several OMP_NUM_THREADS; every run is validated by TLC against GridTrace.tla (identical discrete behaviour follows from the determinism of the spec) and compared event by event with the serial run (points, orders, values, candidate lists, observer bits exactly; coefficients, weights, batch evaluations and integrals to 1e-11 relative)")
     ctx.assume("OmpRegion.tla model-checks the idioms used in the parallel regions (private buffers + critical append + sort/unique, per-thread maximum + critical merge) for every distribution of iterations and every order of critical sections")
